@@ -476,6 +476,12 @@ class HostConnection(object):
             if is_down:
                 self.shutdown()
             else:
+                with self._lock:
+                    if connection in self._trash:
+                        # a connection that was already replaced (orphaned stream threshold):
+                        # the current connection is not affected and must not be dropped
+                        self._trash.remove(connection)
+                        return
                 self._connection = None
                 with self._lock:
                     if self._is_replacing:
